@@ -7,6 +7,9 @@ Definition kcode (s : kstate) : Z :=
 
 Record snap := { sn_threads : list Z; sn_aux : Z (* TryAcquirePermit: 1/0 *) }.
 
+(* [c_n = 0] with an empty schedule: a balance probe - executions whose context was cancelled before they reached the
+   bulkhead (Go's select may then either take a free permit or report the context error): whatever each of them did,
+   all permits must be free at the end *)
 Record case := mk_case {
   c_id : Z; c_cap : Z; c_maxwait : Z; c_n : nat; c_start : Z; c_trace : list kstep; c_obs : list snap; c_free : Z }.
 
